@@ -288,6 +288,8 @@ where
         f: F,
     ) -> B {
         let range_bytes = (to - from) * Self::SIZE_OF_T;
+        #[cfg(anydb_verif)]
+        let range_bytes = if range_bytes > crate::verif::mmap_crossover_bytes() { usize::MAX } else { 0 };
         if range_bytes > MMAP_CROSSOVER_BYTES {
             crate::CompressedIoSource::new(self, from, to).fold(init, f)
         } else {
@@ -304,6 +306,8 @@ where
         f: F,
     ) -> std::result::Result<B, E> {
         let range_bytes = (to - from) * Self::SIZE_OF_T;
+        #[cfg(anydb_verif)]
+        let range_bytes = if range_bytes > crate::verif::mmap_crossover_bytes() { usize::MAX } else { 0 };
         if range_bytes > MMAP_CROSSOVER_BYTES {
             crate::CompressedIoSource::new(self, from, to).try_fold(init, f)
         } else {
